@@ -195,11 +195,51 @@ def run_large(acc, tier):
     acc.sample({"family": "large tables", "shapes": [[1, 800], [3, 300]]})
 
 
+def run_two_clients(acc):
+    """several Client objects in one process, each talking to its own device,
+    fetching with the same bulk sizes one after the other (nothing a client
+    builds for itself may end up serving another client)"""
+    devices = []
+    for d in range(3):
+        T = TABLES[d % 2]
+        ENTRY = T + (1,)
+        db = {BEFORE[0]: BEFORE[1], AFTER[0]: AFTER[1]}
+        for c in (1, 2):
+            for r in range(1, 3 + d):
+                db[ENTRY + (c, r)] = ("int", 1000 * (d + 1) + 10 * c + r)
+        ag = ragent.Agent(db)
+        client, sender = world.make_client(creds(), ag.handle)
+        devices.append((T, ENTRY, db, ag, client))
+    for rnd in range(2):
+        for variant, bulk in (("bulktable", 10), ("bulktable", 2), ("table", None), ("bulkwalk", 10)):
+            for d, (T, ENTRY, db, ag, client) in enumerate(devices):
+                del ag.log[:]
+                client.sender.calls = []
+                client.sender.limit = len(db) + 10
+                try:
+                    if variant == "bulkwalk":
+                        got, exc = ops.run_op(client, ("bulkwalk", [ENTRY], bulk))
+                        want = tuple((o, v) for o, v in sorted(db.items()) if o[: len(ENTRY)] == ENTRY)
+                    else:
+                        got, exc = ops.run_op(client, ("table", ENTRY) if variant == "table" else ("bulktable", T, bulk))
+                        want = expected_rows(db, ENTRY)
+                except world.Horizon as hz:
+                    got, exc, want = None, hz, None
+                facts = {"family": "several clients in one process", "device": d, "variant": variant, "bulk": bulk, "round": rnd, "requests_seen_by_its_own_device": len(ag.log)}
+                ok = exc is None and got == want and len(ag.log) >= 1
+                acc.count(evaluations=1, nontrivial=1, states=1, transitions=len(ag.log), traces=1)
+                acc.outcome("ok" if ok else "second-client-wrong")
+                if not ok:
+                    kind = "table-fetch-raised" if exc is not None else ("rows-differ-from-table-model" if got != want else "request-went-to-another-clients-device")
+                    acc.violation({"kind": kind, "detail": {**facts, "exception": repr(exc)[:200], "got": repr(got)[:300]}, "facts": facts, "case": {"two_clients": True}})
+    acc.sample({"family": "three clients / three devices in one process, same bulk sizes"})
+
+
 def shards(tier):
     b = bounds(tier)
     specs = list(tables(b))
     n = 64
-    return [{"tier": tier, "part": i, "of": n} for i in range(n)] + [{"tier": tier, "large": True}]
+    return [{"tier": tier, "part": i, "of": n} for i in range(n)] + [{"tier": tier, "large": True}, {"tier": tier, "two_clients": True}]
 
 
 def run_shard(params, acc):
@@ -207,6 +247,9 @@ def run_shard(params, acc):
 
     if params.get("large"):
         run_large(acc, params["tier"])
+        return
+    if params.get("two_clients"):
+        run_two_clients(acc)
         return
     b = bounds(params["tier"])
     client, _ = world.make_client(creds(), lambda p: b"")
@@ -226,6 +269,17 @@ def run_shard(params, acc):
 def replay(case):
     from puresnmp import PyWrapper
 
+    if case.get("two_clients"):
+        class B:
+            def __init__(self):
+                self.v = []
+            def count(self, **k): pass
+            def outcome(self, *a, **k): pass
+            def sample(self, *a, **k): pass
+            def violation(self, v): self.v.append(v)
+        b2 = B()
+        run_two_clients(b2)
+        return b2.v
     if "large" in case:
         class A:
             def __init__(self):
